@@ -377,6 +377,11 @@ class Prover:
         ua, lb_ = self.ub(a, facts), self.lb(b, facts)
         if ua is not None and lb_ is not None and ua <= lb_:
             return True
+        # the two components of a header's data range: start <= end (the range helpers return (off, off (+) size), C03's range rule)
+        if a.op == "proj" and b.op == "proj" and a.args[0] is b.args[0] and a.args[1][:2] == ("f", 0) and b.args[1][:2] == ("f", 1) \
+                and a.args[0].op == "payload" and a.args[0].args[1] == "Ok" and a.args[0].args[0].op == "call" \
+                and a.args[0].args[0].args[0] in ("section::SectionHeader::get_data_range", "segment::ProgramHeader::get_file_data_range"):
+            return True
         # (r.len() as u64) <= b  when  (r.end as u64) <= b :  the length of a range is at most its end
         if a.op == "cast" and a.args[0] == "IntToInt" and a.args[1].op == "call" and a.args[1].args[0] == "iter::ExactSizeIterator::len":
             r = a.args[1].args[2][0]
@@ -474,6 +479,25 @@ class Prover:
                 r = x.args[0].args[2][1]
                 if r.op == "agg" and r.args[1] == "ops::Range":
                     return self.arith(Term("bin", "Sub", r.args[4][1], r.args[4][0], "usize"), facts)
+        if t.op == "len":
+            # the buffer read_bytes(a, b) hands back is b - a bytes long (C17's buffer-length and load-before-get rules)
+            x = t.args[0]
+            while x.op in ("refval", "deref"):
+                x = x.args[0]
+            if x.op == "payload" and x.args[1] == "Ok":
+                c_ = self.an.call_site_of(x)
+                if c_ is not None and c_.callee_qual == "elf_stream::CachingReader::read_bytes" and len(c_.args) == 3:
+                    return self.arith(Term("bin", "Sub", c_.args[2], c_.args[1], "usize"), facts)
+        if t.op == "bin" and t.args[0] == "Div":
+            # (x (*) y)!Some / y = x   (the product did not wrap; y != 0 or the division itself traps)
+            x, y = self.arith(t.args[1], facts), t.args[2]
+            if x.op == "payload" and x.args[1] == "Some" and x.args[0].op == "call" and x.args[0].args[0].endswith("::checked_mul") and _uint_head(x.args[0].args[0]):
+                p_, q_ = x.args[0].args[2]
+                for u_, v_ in ((p_, q_), (q_, p_)):
+                    if v_ is y or (self._exact(v_, facts) is not None and self._exact(v_, facts) == self._exact(y, facts)):
+                        return u_
+            if x is not t.args[1]:
+                return Term("bin", "Div", x, y, t.args[3])
         if t.op == "bin" and t.args[0] == "Sub":
             x, y = t.args[1], t.args[2]
             if x.op == "payload" and x.args[1] == "Some" and x.args[0].op == "call" and x.args[0].args[0].endswith("::checked_add") \
@@ -489,6 +513,11 @@ class Prover:
                 if y is x.args[2]:
                     return x.args[1]
         return t
+
+    def _exact(self, t, facts):
+        """the single value t can have, if lower and upper bound coincide"""
+        l, u = self.lb(t, facts), self.ub(t, facts)
+        return l if (l is not None and l == u) else None
 
     def decide(self, c, facts):
         """truth of a boolean term under facts, with the order reasoning above: True / False / None (unknown)"""
